@@ -276,3 +276,7 @@ PROPS["C09"] = {
 }
 _MODS["cli09"] = type("M", (), {"run": staticmethod(cli09.run), "case": staticmethod(cli09.case),
                                 "run_case": staticmethod(cli09.run_case_), "shrink_ops": staticmethod(cli09.shrink_case)})
+
+PROPS["C08"]["streams"] = [G, G_ENF, G_COND, CH, PLAN, CW,
+                           {"profile": "greedy", "opts": {"p_batch_loader": 0, "p_cut": 0.6}},
+                           {"profile": "chaos", "opts": {"p_batch_loader": 0, "p_cut": 0.6}}]
